@@ -207,6 +207,9 @@ class PrecipitateModel (PrecipitateBase):
         #This is just to allow for particles to dissolve instead of pile up in the smallest bin
         self.RdrivingForceIndex = np.zeros(len(self.phases), dtype=np.int32)
 
+        #The table is now valid for temperature T, restart accumulating the temperature change
+        self.dTemp = 0
+
         #Keep as separate arrays so that number of PSD classes can change within precipitate phases
         self.PSDXalpha = []
         self.PSDXbeta = []
@@ -534,7 +537,6 @@ class PrecipitateModel (PrecipitateBase):
         self.dTemp += T - self.pData.temperature[self.pData.n]
         if np.abs(self.dTemp) > self.constraints.maxTempChange:
             xEqAlpha, xEqBeta = self._createLookupBinary(T)
-            self.dTemp = 0
         else:
             xEqAlpha, xEqBeta = np.array([self.pData.xEqAlpha[self.pData.n]]), np.array([self.pData.xEqBeta[self.pData.n]])
         Y.xEqAlpha = xEqAlpha
